@@ -43,7 +43,8 @@ def malCodec (env : Env) (op : String) (ty s bs : Sexp) (tag : String) (impl : S
         | _ => 0
       -- the recorded finding D14: arrays are pre-allocated / iterated from the declared block count
       let d14 := if hasArray codec then "[D14 array-count-not-backed] " else ""
-      if cls == "panic" then .oracle s!"{d14}panic on malformed input ({tag}): {impl}"
+      -- a panic is never part of D14 (that finding is about memory and time driven by the declared count)
+      if cls == "panic" then .oracle s!"panic on malformed input ({tag}): {impl}"
       else if cls == "crash" then .oracle s!"{d14}process crashed on malformed input ({tag})"
       else if cls == "hang" then .oracle s!"{d14}did not terminate on malformed input ({tag})"
       else if cls == "clobber" then .oracle "memory outside the destination was modified"
